@@ -12,7 +12,9 @@ import (
 	"io"
 	"net"
 	"os"
+	"strings"
 	"sync"
+	"sync/atomic"
 	"syscall"
 	"time"
 
@@ -57,8 +59,20 @@ type registry struct {
 
 var reg = &registry{ls: map[string]*listener{}, nextPort: 20000}
 
+// Namespaces, when on, gives every failure domain its own view of socket paths (a plugin in a
+// container): a listener created by domain L is reachable from another domain D only under
+// the address ViewPrefix(D)+path, which is what a runner's address translator produces.
+var namespaces atomic.Bool
+
+// SetNamespaces switches namespace isolation on or off (reset between executions).
+func SetNamespaces(on bool) { namespaces.Store(on) }
+
+// ViewPrefix is the prefix under which domain d sees other domains' socket paths.
+func ViewPrefix(d string) string { return "/view-of-" + d }
+
 // Reset closes every virtual endpoint (between executions).
 func Reset() {
+	namespaces.Store(false)
 	reg.mu.Lock()
 	ls := reg.ls
 	cs := reg.conns
@@ -225,6 +239,21 @@ func Dial(network, address string) (net.Conn, error) {
 		}
 		k = "tcp|" + a.String()
 	}
+	cd := vs.CurDomain()
+	if namespaces.Load() && network == "unix" && cd != nil {
+		// strip this domain's view prefix; without it only the domain's own listeners are visible
+		pre := ViewPrefix(cd.Name)
+		if strings.HasPrefix(address, pre) {
+			k = network + "|" + strings.TrimPrefix(address, pre)
+		} else {
+			reg.mu.Lock()
+			l := reg.ls[k]
+			reg.mu.Unlock()
+			if l != nil && l.dom != nil && l.dom != cd {
+				return nil, &net.OpError{Op: "dial", Net: network, Err: syscall.ENOENT} // another namespace's path
+			}
+		}
+	}
 	reg.mu.Lock()
 	reg.dials++
 	l := reg.ls[k]
@@ -232,7 +261,9 @@ func Dial(network, address string) (net.Conn, error) {
 	if l == nil {
 		return nil, &net.OpError{Op: "dial", Net: network, Err: syscall.ECONNREFUSED}
 	}
-	cd := vs.CurDomain()
+	if namespaces.Load() && network == "unix" && cd != nil && l.dom != nil && l.dom != cd && !strings.HasPrefix(address, ViewPrefix(cd.Name)) {
+		return nil, &net.OpError{Op: "dial", Net: network, Err: syscall.ENOENT}
+	}
 	a, b := newPair(l.addr, cd, l.dom)
 	select {
 	case l.backlog <- b:
